@@ -44,6 +44,8 @@ var c02Shapes = []cshape{
 	{"nontriggering-root", func() *cnode { r := n("r"); r.norule = true; return r }, false},
 	{"fan2-prio", func() *cnode { a, b := n("a"), n("b"); a.prio = 2; b.prio = 1; return n("r", a, b) }, false},
 	{"fan2-depth", func() *cnode { return n("r", n("a", n("c")), n("b")) }, false},
+	// both children fail: on two workers the two failures are recorded at the same time
+	{"fan2-bothfail", func() *cnode { a, b := n("a"), n("b"); a.fail = true; b.fail = true; return n("r", a, b) }, false},
 }
 
 type c02Casc struct {
